@@ -1290,6 +1290,8 @@ class Agent(dbus.service.Object):
             data_size_encsize = len(cbor2.dumps(item.total_length))
             # Size left for fragment data
             remain_size = mtu - (ext_base_encsize - 1 + data_size_encsize)
+            if remain_size <= 0:
+                raise RuntimeError('MTU {} too small to segment transfer {}'.format(mtu, item.transfer_id))
 
             frag_offset = 0
             while frag_offset < len(data):
